@@ -1,1 +1,394 @@
-pub fn unused() {}
+//! L1: component simulation of the private fair queue through `__verif::FairQueueProbe`.
+//!
+//! Scripted streams with ground-truth queues; a receiver modelled as a parked task (after
+//! `Pending` it polls again only once its waker has fired, or spuriously); foreign atomic
+//! actions — produce + fire the armed waker, insert a peer, close a peer, spurious/stale wakes —
+//! run between receiver polls, inside every scripted `poll_next`, and at every mutex boundary of
+//! the queue (the parking_lot shim's preemption points), i.e. also in the window in which
+//! `poll_next` has a stream checked out and holds no lock. Oracles: C05 (exactly once, in order,
+//! nothing invented), C06 (no lost wake-up at quiescence; bounded overtaking with deep queues).
+use crate::fw::Ctx;
+use futures::task::ArcWake;
+use futures::Stream;
+use std::cell::RefCell;
+use std::collections::VecDeque;
+use std::pin::Pin;
+use std::sync::atomic::{AtomicU64, Ordering};
+use std::sync::Arc;
+use std::task::{Context, Poll, Waker};
+use zeromq::__verif::{FairQueueHandle, FairQueueProbe};
+use zmq_simrt as rt;
+use zmq_simrt::Stream as Tape;
+
+#[derive(Default)]
+struct Peer {
+    queue: VecDeque<u32>,
+    armed: Option<Waker>,
+    stale: Vec<Waker>,
+    inserted: bool,
+    closed: bool,
+    ended: bool,
+    removed: bool,
+    produced: u32,
+    delivered: u32,
+    delivered_after_remove: u32,
+    waiting: u64,
+}
+
+struct World {
+    peers: Vec<Peer>,
+    faults_on: bool,
+    allow_spurious: bool,
+    extra_tokens: u64,
+    in_window_wakes: u64,
+    in_window_inserts: u64,
+    in_poll: bool,
+    deliveries: Vec<u8>,
+    pending_inserts: Vec<u8>,
+}
+thread_local! { static W: RefCell<Option<World>> = const { RefCell::new(None) }; }
+fn w<R>(f: impl FnOnce(&mut World) -> R) -> R {
+    W.with(|x| f(x.borrow_mut().as_mut().expect("l1 world")))
+}
+
+pub struct Scripted(u8);
+impl Stream for Scripted {
+    type Item = u32;
+    fn poll_next(self: Pin<&mut Self>, cx: &mut Context<'_>) -> Poll<Option<u32>> {
+        let id = self.0 as usize;
+        // a foreign action may land right before the stream looks at its queue ...
+        act(foreign(true));
+        let (res, old) = w(|w| {
+            let p = &mut w.peers[id];
+            if let Some(v) = p.queue.pop_front() {
+                return (Poll::Ready(Some(v)), None);
+            }
+            if p.closed {
+                p.ended = true;
+                return (Poll::Ready(None), p.armed.take());
+            }
+            let old = p.armed.replace(cx.waker().clone());
+            (Poll::Pending, old)
+        });
+        if let Some(o) = old {
+            w(|w| {
+                let p = &mut w.peers[id];
+                if p.stale.len() < 2 {
+                    p.stale.push(o);
+                }
+            });
+        }
+        // ... or right after it registered its waker (the classic lost-wake-up window)
+        if res.is_pending() {
+            act(foreign(true));
+        }
+        res
+    }
+}
+
+struct RecvWaker(AtomicU64);
+impl ArcWake for RecvWaker {
+    fn wake_by_ref(a: &Arc<Self>) {
+        a.0.fetch_add(1, Ordering::SeqCst);
+    }
+}
+
+enum Act {
+    Wake(Waker),
+    Insert(u8),
+    Nothing,
+}
+
+thread_local! { static HANDLE: RefCell<Option<FairQueueHandle<Scripted, u8>>> = const { RefCell::new(None) }; }
+
+fn act(a: Act) {
+    match a {
+        Act::Wake(wk) => wk.wake(),
+        Act::Insert(id) => {
+            HANDLE.with(|h| {
+                if let Some(h) = h.borrow().as_ref() {
+                    h.insert(id, Scripted(id));
+                }
+            });
+        }
+        Act::Nothing => {}
+    }
+}
+
+fn foreign(in_window: bool) -> Act {
+    let on = w(|w| w.faults_on);
+    if !on {
+        return Act::Nothing;
+    }
+    // most points do nothing: keeps runs making progress between events
+    if rt::draw_rare(Tape::Sched, 2, 1, if in_window { 6 } else { 1 }) == 0 && in_window {
+        return Act::Nothing;
+    }
+    let kind = rt::draw(Tape::Sched, 10);
+    let n = w(|w| w.peers.len()) as u64;
+    let id = rt::draw(Tape::Sched, n) as usize;
+    let burst = 1 + rt::draw(Tape::Sched, 4) as u32;
+    w(|w| {
+        let in_poll = w.in_poll;
+        match kind {
+            0..=5 => {
+                let p = &mut w.peers[id];
+                if !p.inserted || p.closed || p.removed {
+                    return Act::Nothing;
+                }
+                for _ in 0..burst {
+                    p.produced += 1;
+                    p.queue.push_back((id as u32) << 24 | p.produced);
+                }
+                match p.armed.take() {
+                    Some(wk) => {
+                        if in_poll {
+                            w.in_window_wakes += 1;
+                        }
+                        Act::Wake(wk)
+                    }
+                    None => Act::Nothing,
+                }
+            }
+            6 => match (0..w.peers.len()).find(|i| !w.peers[*i].inserted) {
+                Some(i) => {
+                    w.peers[i].inserted = true;
+                    if in_poll {
+                        w.in_window_inserts += 1;
+                    }
+                    Act::Insert(i as u8)
+                }
+                None => Act::Nothing,
+            },
+            7 => {
+                let p = &mut w.peers[id];
+                if p.inserted && !p.closed && burst == 1 {
+                    p.closed = true;
+                    if let Some(wk) = p.armed.take() {
+                        return Act::Wake(wk);
+                    }
+                }
+                Act::Nothing
+            }
+            8 if w.allow_spurious => {
+                let p = &mut w.peers[id];
+                if let Some(wk) = p.stale.pop() {
+                    w.extra_tokens += 1;
+                    rt::count("fault_stale_wake");
+                    return Act::Wake(wk);
+                }
+                if let Some(wk) = p.armed.as_ref() {
+                    w.extra_tokens += 1;
+                    rt::count("fault_spurious_wake");
+                    return Act::Wake(wk.clone());
+                }
+                Act::Nothing
+            }
+            _ => Act::Nothing,
+        }
+    })
+}
+
+pub fn run(ctx: &mut Ctx) {
+    let n = 1 + ctx.plan(4) as usize;
+    let allow_spurious = ctx.plan_bool();
+    let chaos = 60 + ctx.plan(600);
+    let initially_inserted = ctx.plan(n as u64 + 1) as usize;
+    let do_remove = ctx.plan(4) == 0;
+    W.with(|x| {
+        *x.borrow_mut() = Some(World { peers: (0..n).map(|_| Peer::default()).collect(), faults_on: true, allow_spurious, extra_tokens: 0, in_window_wakes: 0, in_window_inserts: 0, in_poll: false, deliveries: vec![], pending_inserts: vec![] })
+    });
+    let mut probe: FairQueueProbe<Scripted, u8> = FairQueueProbe::new(true);
+    HANDLE.with(|h| *h.borrow_mut() = Some(probe.handle()));
+    for i in 0..initially_inserted {
+        w(|w| w.peers[i].inserted = true);
+        act(Act::Insert(i as u8));
+    }
+    // every lock/unlock of the queue's mutex (when no other shim lock is held) is a preemption point
+    zmq_sim_sync::set_preempt_hook(Some(Box::new(|_k| {
+        rt::count("mutex_boundary_points");
+        let a = foreign(true);
+        act(a);
+    })));
+    let rw = Arc::new(RecvWaker(AtomicU64::new(0)));
+    let waker = futures::task::waker(rw.clone());
+    let mut cx = Context::from_waker(&waker);
+    let mut seen = 0u64;
+    let mut parked = false;
+    let mut violations: Vec<(&'static str, String)> = Vec::new();
+
+    let mut poll_once = |probe: &mut FairQueueProbe<Scripted, u8>, seen: &mut u64, parked: &mut bool, violations: &mut Vec<(&'static str, String)>, fairness_bound: Option<u64>| -> bool {
+        *seen = rw.0.load(Ordering::SeqCst);
+        w(|w| w.in_poll = true);
+        let r = probe.poll_next(&mut cx);
+        w(|w| w.in_poll = false);
+        match r {
+            Poll::Ready(Some((k, v))) => {
+                *parked = false;
+                w(|w| {
+                    let nn = w.peers.len();
+                    if (k as usize) >= nn {
+                        violations.push(("unattributable", format!("delivery labelled with unknown key {k}")));
+                        return;
+                    }
+                    let p = &mut w.peers[k as usize];
+                    let expect = (k as u32) << 24 | (p.delivered + 1);
+                    if v != expect {
+                        let clause = if v >> 24 != k as u32 { "mislabelled" } else if (v & 0xff_ffff) <= p.delivered { "duplicate" } else { "lost_or_reordered" };
+                        violations.push((clause, format!("peer {k}: delivered item {:#x}, expected {:#x}", v, expect)));
+                    }
+                    p.delivered += 1;
+                    if p.removed {
+                        p.delivered_after_remove += 1;
+                    }
+                    p.waiting = 0;
+                    w.deliveries.push(k);
+                    if let Some(bound) = fairness_bound {
+                        for (i, q) in w.peers.iter_mut().enumerate() {
+                            if i != k as usize && q.inserted && !q.removed && !q.queue.is_empty() {
+                                q.waiting += 1;
+                                if q.waiting > bound {
+                                    violations.push(("starvation", format!("peer {i} has had an item queued during {} consecutive deliveries from other peers (bound {bound} for {nn} peers)", q.waiting)));
+                                }
+                            }
+                        }
+                    }
+                });
+                true
+            }
+            Poll::Ready(None) => {
+                violations.push(("ended_while_blocking", "the queue returned None although it was created to block while it has no clients".into()));
+                *parked = false;
+                false
+            }
+            Poll::Pending => {
+                *parked = true;
+                false
+            }
+        }
+    };
+
+    // ---- phase 1: chaos -------------------------------------------------------------------------
+    for _ in 0..chaos {
+        let woken = rw.0.load(Ordering::SeqCst) != seen;
+        let can_poll = !parked || woken || (allow_spurious && rt::draw_rare(Tape::Sched, 2, 1, 20) == 1);
+        let d = rt::draw(Tape::Sched, 3);
+        if can_poll && d != 2 {
+            poll_once(&mut probe, &mut seen, &mut parked, &mut violations, None);
+        } else {
+            act(foreign(false));
+        }
+        if violations.len() > 3 {
+            break;
+        }
+    }
+    // optional removal of one peer between polls (what peer_disconnected does)
+    if do_remove {
+        let id = ctx.plan(n as u64) as usize;
+        let ok = w(|w| {
+            let p = &mut w.peers[id];
+            if p.inserted && !p.removed {
+                p.removed = true;
+                true
+            } else {
+                false
+            }
+        });
+        if ok {
+            HANDLE.with(|h| h.borrow().as_ref().unwrap().remove(&(id as u8)));
+            ctx.probe("peer_removed");
+        }
+    }
+    // ---- phase 2: fairness with deep queues ------------------------------------------------------
+    w(|w| w.faults_on = false);
+    let extra = w(|w| w.extra_tokens);
+    let live: Vec<usize> = w(|w| (0..w.peers.len()).filter(|i| w.peers[*i].inserted && !w.peers[*i].closed && !w.peers[*i].removed).collect());
+    if live.len() >= 2 {
+        let depth = 3 * n as u32 + 6;
+        for &i in &live {
+            let wk = w(|w| {
+                let p = &mut w.peers[i];
+                for _ in 0..depth {
+                    p.produced += 1;
+                    p.queue.push_back((i as u32) << 24 | p.produced);
+                }
+                p.waiting = 0;
+                p.armed.take()
+            });
+            if let Some(wk) = wk {
+                wk.wake();
+            }
+        }
+        w(|w| {
+            for p in w.peers.iter_mut() {
+                p.waiting = 0;
+            }
+        });
+        let bound = 2 * n as u64 + 2 + extra;
+        let mut guard = 0;
+        loop {
+            guard += 1;
+            let woken = rw.0.load(Ordering::SeqCst) != seen;
+            if parked && !woken {
+                break;
+            }
+            if guard > 100_000 {
+                violations.push(("no_quiescence", "receiver keeps being woken without end".into()));
+                break;
+            }
+            poll_once(&mut probe, &mut seen, &mut parked, &mut violations, Some(bound));
+            if violations.len() > 3 {
+                break;
+            }
+        }
+        ctx.probe("fairness_phase");
+    }
+    // ---- phase 3: drain to quiescence -----------------------------------------------------------
+    let mut guard = 0;
+    loop {
+        guard += 1;
+        let woken = rw.0.load(Ordering::SeqCst) != seen;
+        if parked && !woken {
+            break;
+        }
+        if guard > 200_000 {
+            violations.push(("no_quiescence", "receiver keeps being woken without end".into()));
+            break;
+        }
+        poll_once(&mut probe, &mut seen, &mut parked, &mut violations, None);
+        if violations.len() > 3 {
+            break;
+        }
+    }
+    zmq_sim_sync::set_preempt_hook(None);
+    // ---- quiescence oracles ----------------------------------------------------------------------
+    let (iw, ii, dels) = w(|w| {
+        for (i, p) in w.peers.iter().enumerate() {
+            if p.inserted && !p.removed && !p.queue.is_empty() {
+                violations.push(("lost_wakeup", format!("receiver is parked and has not been woken, yet peer {i} has {} undelivered items (its waker armed: {})", p.queue.len(), p.armed.is_some())));
+            }
+            if p.removed && p.delivered_after_remove > 0 {
+                violations.push(("delivered_after_remove", format!("peer {i} was removed between polls but {} of its items were delivered afterwards", p.delivered_after_remove)));
+            }
+        }
+        (w.in_window_wakes, w.in_window_inserts, w.deliveries.len())
+    });
+    for (c, d) in violations {
+        ctx.violation(c, d);
+    }
+    ctx.probe_n("wake_while_in_poll", iw);
+    ctx.probe_n("insert_while_in_poll", ii);
+    ctx.probe_n("l1_deliveries", dels as u64);
+    if iw + ii > 0 {
+        ctx.nontrivial();
+    }
+    if ctx.want_sample {
+        let d: Vec<String> = w(|w| w.deliveries.iter().take(40).map(|x| x.to_string()).collect());
+        ctx.out.sample = Some(format!("fair queue with {n} scripted peers ({initially_inserted} inserted up front), spurious wakes {}, {chaos} chaos steps; {dels} deliveries, head: {}; in-poll wakes {iw}, in-poll inserts {ii}", allow_spurious, d.join("")));
+    }
+    // tear down inside the run thread: streams hold wakers that hold the queue
+    HANDLE.with(|h| *h.borrow_mut() = None);
+    drop(probe);
+    W.with(|x| *x.borrow_mut() = None);
+    ctx.check_panics();
+}
